@@ -18,7 +18,8 @@ from .base import RunResult
 
 ALL = C.ALL_MESSAGE_TYPES
 MSG_TYPES = [26, 32, 0, 8, 14]          # MODULE_READY, CLIENT_INFO, EXIT, FAILED_MESSAGE, DISCONNECT
-SCRATCH = os.environ.get("VERIF_SCRATCH", "/tmp")
+def _scratch():
+    return os.environ.get("VERIF_SCRATCH", "/tmp")
 _QLDEFS_DIR = None
 
 
@@ -40,7 +41,7 @@ def qldefs_path():
     """a minimal definitions module that only re-exports the core definitions"""
     global _QLDEFS_DIR
     if _QLDEFS_DIR is None or not os.path.exists(_QLDEFS_DIR):
-        _QLDEFS_DIR = tempfile.mkdtemp(prefix="verif_qldefs_", dir=SCRATCH)
+        _QLDEFS_DIR = tempfile.mkdtemp(prefix="verif_qldefs_", dir=_scratch())
         with open(os.path.join(_QLDEFS_DIR, "verif_qldefs.py"), "w") as f:
             f.write("from pyrtma.core_defs import *\n")
     return os.path.join(_QLDEFS_DIR, "verif_qldefs.py")
@@ -79,7 +80,7 @@ class DataLoggerRun:
         self._set(DCM, "print", lambda *a, **k: None)
         self.write_period = ch.choose("cfg.write_period", [15.0, 1.0, 0.5, 3.0])
         self._set(DCM.DataCollection, "WRITE_PERIOD", self.write_period)
-        self.tmp = tempfile.mkdtemp(prefix="verif_dl_", dir=SCRATCH)
+        self.tmp = tempfile.mkdtemp(prefix="verif_dl_", dir=_scratch())
         md = LoggingMetadata()
         self.dc = DCM.DataCollection("coll", self.tmp, "run", md, use_thread=True)
         fm = {"raw": RawFormatter, "json": JsonFormatter, "quicklogger": QLFormatter, "msg_header": MsgHeaderFormatter}
